@@ -472,7 +472,7 @@ def seam_report(src=None):
     not scheduled at all. Reported in the evidence and as a NOTE line; never an alarm."""
     import re
     src = src or os.environ.get("GRAAF_SRC") or os.path.join(REPO, "src")
-    bypass, unseamed = [], []
+    bypass, unseamed, tls = [], [], []
     for root, _, files in os.walk(src):
         for f in files:
             if not f.endswith(".rs") or f == "verif_seam.rs":
@@ -482,6 +482,9 @@ def seam_report(src=None):
                 text = open(path).read()
             except OSError:
                 continue
+            nontest = text.split("\n#[cfg(test)]")[0]
+            if re.search(r"(?<![:\w])thread_local!", "\n".join(ln for ln in nontest.splitlines() if not ln.strip().startswith("//"))):
+                tls.append(os.path.relpath(path, src))
             # split into top-level-in-impl functions: "    fn name(" ... next "    fn " or "\n}\n"
             parts = re.split(r"\n(?=    (?:pub )?(?:unsafe )?fn )", text)
             for part in parts:
@@ -498,7 +501,8 @@ def seam_report(src=None):
                         and "/tests" not in path:
                     if re.search(r"\b(thread::)?(spawn|scope)\s*\(\s*(move\s*)?\|", code):
                         unseamed.append("%s: fn %s" % (os.path.relpath(path, src), name))
-    return {"std_paths_inside_seamed_functions": sorted(set(bypass)), "thread_creation_outside_the_seam": sorted(set(unseamed))}
+    return {"std_paths_inside_seamed_functions": sorted(set(bypass)), "thread_creation_outside_the_seam": sorted(set(unseamed)),
+            "thread_local_storage_in_library_code": sorted(set(tls))}
 
 
 def cpu_buckets(c):
@@ -567,6 +571,9 @@ def sched_phase(pid, tier, runs=None):
     for k, v in sr.items():
         if v:
             how = "redirected to the seam in a patched copy of the sources for this run" if k.startswith("std_paths") \
+                else "all simulated threads of an execution share one OS thread and therefore one instance of a std thread-local: " \
+                     "a violation reported by a shuttle lane for code that keeps per-thread state across a synchronisation " \
+                     "operation must be confirmed with the Miri lanes, which run real threads" if k.startswith("thread_local") \
                 else "not scheduled by the shuttle lanes; the Miri lanes schedule real threads"
             log("NOTE %s: %s (%s)" % (k.replace("_", " "), "; ".join(v), how))
     # the digest files are large in the thorough tier (8 bytes per run / case / schedule): drop them
